@@ -470,6 +470,9 @@ func writeEvidence(spec *CheckSpec, tier string, seed int64, results []*HarnessR
 		}
 	}
 	sort.Strings(encoded)
+	if inconcl == nil {
+		inconcl = []string{}
+	}
 	if len(samples) == 0 {
 		samples = append(samples, map[string]interface{}{"note": "no completed path produced a sample model"})
 	}
